@@ -87,7 +87,13 @@ class FileNamesResolverForGlobPattern(FileNamesResolver):
         self.pattern = pattern
 
     def resolve(self, environment: instruction.Environment) -> List[Path]:
-        paths = environment.suite_file_dir_path.glob(self.pattern)
+        pattern = Path(self.pattern)
+        if pattern.is_absolute():
+            # Path.glob accepts only relative patterns: match relative to the root of the pattern
+            root = Path(pattern.anchor)
+            paths = root.glob(str(pattern.relative_to(root)))
+        else:
+            paths = environment.suite_file_dir_path.glob(self.pattern)
         return sorted([
             self.path_resolver(path)
             for path in paths
